@@ -47,7 +47,7 @@ PROPS = {
     "C33": {
         "title": "Heap writes never exceed the reserved capacity",
         "v_units": ["heap"],
-        "ob_filter": {"heap": [r"^(InnerHeap_grow|Heap_grow|Heap_new|Heap_with_cell_capacity|Heap_free_space|Heap_cell_len|Heap_byte_len|Heap_is_empty|Heap_truncate|Heap_push_cell|Heap_append|Heap_copy_pstr_within|Heap_reserve|ReservedHeapSection_cell_len|ReservedHeapSection_push_cell|ReservedHeapSection_push_pstr_segment|pstr_sentinel_length)::"]},
+        "ob_filter": {"heap": [r"^(InnerHeap_grow|Heap_grow|Heap_new|Heap_with_cell_capacity|Heap_free_space|Heap_cell_len|Heap_byte_len|Heap_is_empty|Heap_truncate|Heap_push_cell|Heap_append|Heap_copy_pstr_within|Heap_reserve|Heap_copy_slice_to_end|ReservedHeapSection_cell_len|ReservedHeapSection_push_cell|ReservedHeapSection_push_pstr_segment|pstr_sentinel_length)::"]},
         "k_groups": [],
         "replay": "heap",
         "level": "proof",
